@@ -139,10 +139,13 @@ class ClockFacade:
         c_call: float = 1.1e-6,
         c_z3: float = 0.5e-6,
         faults: Optional[List[Dict[str, Any]]] = None,
+        mono_origin: float = 1000.0,
     ):
         self.log = log
         self.work = work
         self.epoch = epoch
+        # "The reference point of the returned value [of time.monotonic()] is undefined"
+        self.mono_origin = mono_origin
         self.c_call = c_call
         self.c_z3 = c_z3
         self.offset_mono = 0.0  # forward jumps, slow windows, sleeps
@@ -206,7 +209,7 @@ class ClockFacade:
 
     def monotonic(self) -> float:
         self._tick("mono")
-        v = 1000.0 + self._base() + self.offset_mono
+        v = self.mono_origin + self._base() + self.offset_mono
         self.log.add("clk", "m", round(v, 6))
         return v
 
